@@ -36,7 +36,9 @@ SPEC = {
  "C04": (["OxiddModel.Bdd.PropertiesC04", "OxiddModel.Bcdd.PropertiesC04"], [("c04", ["bdd", "bcdd", "zbdd"])]),
  "C05": (["OxiddModel.Bdd.PropertiesC05"], [("c05", ["bdd", "bcdd", "zbdd"])]),
  "C06": (["OxiddModel.Bdd.PropertiesC06"], [("c06", ["bdd", "bcdd", "zbdd"])]),
+ "C08": (["OxiddModel.Reorder.Properties"], [("c08", ["bdd", "bcdd", "zbdd"])]),
  "C09": (["OxiddModel.Zbdd.PropertiesC09"], [("c09", ["zbdd"])]),
+ "C14": (["OxiddModel.Bdd.PropertiesC14"], [("c14", ["bdd", "bcdd", "zbdd"])]),
  "C13": (["OxiddModel.Bdd.PropertiesC13", "OxiddModel.Bcdd.PropertiesC13", "OxiddModel.Zbdd.PropertiesC13"], [("c13", ["bdd", "bcdd", "zbdd"])]),
 }
 for pid, (mods, suites) in SPEC.items():
@@ -48,6 +50,15 @@ for pid, (mods, suites) in SPEC.items():
     streams = []
     for suite, kinds in suites:
         streams += bf_streams(suite, kinds)
+    if pid == "C14":
+        for st in streams:
+            st["run_args"] = st["run_args"] + ["--capped", "1"]
+    def kf(name, kind):
+        return {"name": name, "bin": "bf", "gen": {"quick": ["--kind", kind, "--suite", name], "thorough": ["--kind", kind, "--suite", name]}, "run_args": ["--kind", kind, "--hang-secs", "20"]}
+    if pid == "C08":
+        streams += [kf("kf-zbdd-reorder", "zbdd"), kf("kf-reorder-oom", "bdd")]
+    if pid == "C14":
+        streams += [kf("kf-reorder-oom", "bdd"), kf("kf-zbdd-addvars-oom", "zbdd")]
     keep = [s for s in cfg.get("streams", []) if s.get("bin") != "bf"]
     cfg["streams"] = streams + keep
     cfg.setdefault("exhaustive", {"quick": False, "thorough": False})
